@@ -119,7 +119,7 @@ def names(draw, k):
     alphabet = "abcdefghijklmnopqrstuvwxyzABCDEFGHIJKLMNOPQRSTUVWXYZ"
     while len(out) < k:
         first = draw(st.sampled_from(alphabet))
-        rest = draw(st.text(alphabet + "0123456789", max_size=4))
+        rest = draw(st.text(alphabet + "0123456789" + ("_-" if draw(st.integers(0, 3)) == 0 else ""), max_size=4))
         n = first + rest
         if n in KEYWORDS or n in out:
             continue
